@@ -15,7 +15,7 @@ SEQ = {
     'C06': (['C06'], [('single1', 3, F), ('single2', 3, F), ('single3', 3, F), ('errops', 3, F), ('multi', 4, R), ('endless', 2, F), ('flatdeep', 7, F), ('subjects', 3, R)],
             [('single1', 4, F), ('single2', 4, F), ('single3', 4, R), ('errops', 4, F), ('multi', 4, R), ('endless', 3, F), ('depth2', 4, F), ('flatdeep', 8, R)], '6 C06'),
     'C03': (['REF'], [('multi', 4, R), ('c14', 2, F)], [('multi', 5, R), ('multi3', 4, F)], '6 C03'),
-    'C04': (['REF'], [('errops', 4, F)], [('errops', 5, F), ('errdeep', 4, F)], '6 C04'),
+    'C04': (['REF'], [('errops', 4, F), ('errsubj', 4, F)], [('errops', 5, F), ('errdeep', 4, F), ('errsubj', 5, F)], '6 C04'),
     'C05': (['C05'], [('direct', 4, F), ('single1', 3, F), ('single2', 3, F), ('single3', 3, F), ('errops', 3, F), ('multi', 3, R), ('subjects', 4, R)],
             [('direct', 5, F), ('single1', 4, F), ('single2', 4, F), ('single3', 4, R), ('errops', 4, F), ('multi', 4, R), ('subjects', 5, R), ('depth2', 4, F)], '6 C05'),
     'C07': (['C07'], [('reent', 3, R), ('subjects', 3, R), ('conn', 3, R), ('endless', 2, F), ('single3', 3, F), ('multi', 3, F)],
